@@ -29,7 +29,8 @@ SHARES = {
     'private': {'mode': 'users', 'users': ['alice'], 'files': ['secret song demo.mp3', 'notes.txt']},
     'friends': {'mode': 'friends', 'files': ['friends only song.ogg']},
 }
-QUERIES = ['song', 'first song', 'artist', 'flac', 'nothing matches this', 'secret', 'song -first', 'notes', 'live set', '']
+QUERIES = ['song', 'first song', 'artist', 'flac', 'nothing matches this', 'secret', 'song -first', 'notes', 'live set', '',
+           '  song ', 'first   song', 'live set\t', ' flac']        # incl. queries that are not whitespace-normalised
 ASKERS = ['alice', 'bob', 'erin', 'me']
 BLOCKED = ['erin']        # blocked for searches (Settings.users.blocked)
 TICKETS = [0, 1, 7, 12345, 4294967295]
@@ -71,6 +72,11 @@ def apply_event(rig, ev):
 def _apply(rig, ev):
     from aioslsk.protocol import messages as M
     k = ev[0]
+    if k == 'CRED':       # the credentials in the settings are edited after login (no re-login): the session keeps its name
+        rig.settings.credentials.username = ev[1]
+        rig.settings.credentials.password = 'other'
+        rig.settle()
+        return
     if k == 'SS':
         rig.server_msg(M.ServerSearchRequest.Response(distributed_code=3, unknown=ev[1], username=ev[2], ticket=ev[3], query=ev[4]))
     elif k == 'DS':
@@ -194,6 +200,11 @@ def gen_and_run(rng, n, style):
         for _ in range(nchild):
             c = next_c[0]; next_c[0] += 1
             do(['PI', c, rng.choice(c13.PEER_NAMES), False])
+        if style == 'cred':
+            do(['CRED', 'bob'])
+        if style == 'nosess' and rig.state()['session']:
+            do(['SD'])
+        last = [None]
         target = len(events) + n
         while len(events) < target:
             st = rig.state()
@@ -202,6 +213,19 @@ def gen_and_run(rng, n, style):
             u = rng.choice(ASKERS if style != 'own' else ['me', 'me', 'alice'])
             t = rng.choice(TICKETS)
             q = rng.choice(QUERIES)
+            if style in ('cred', 'nosess'):
+                u = rng.choice(['me', 'me', 'bob', 'alice'])
+            if style == 'access':
+                # the same query text from users with different access to the shares, one right after the other
+                if last[0] is not None and rng.random() < 0.7:
+                    q = last[0][1]
+                    u = rng.choice([x for x in ('alice', 'bob', 'erin') if x != last[0][0]])
+                else:
+                    q = rng.choice(['secret', 'song', 'notes', 'secret song'])
+                    u = rng.choice(['alice', 'bob'])
+                last[0] = (u, q)
+            if style in ('cred', 'nosess', 'access') and r >= 0.72:
+                r = rng.random() * 0.72          # these styles are about the requests themselves
             kids = [c for c in st['children'] if c in live]
             x = []
             if len(kids) >= 2 and rng.random() < (0.6 if style == 'faults' else 0.15):
@@ -370,6 +394,8 @@ def coq_cases(cases):
                         raise BrokenTie('correspondence:C14', f'connections closed during a search step: {o["closed"]} (fault injected on {fc})')
                     o_model = dict(prev, srv=[], conn=o['conn'], closed=[], replies=o['replies'])
                     extra_close = [(f'Tree (ConnClosed {fc}%nat)', dict(o, conn={}, replies={}))]
+            elif ev[0] == 'CRED':
+                evs.append('Tree (PotentialParents [])')       # no effect on the machine: the own name is the session's
             else:
                 evs.append(f'Tree ({c13.ev_coq(ev)})')
             for om in [o_model] + [x[1] for x in extra_close]:
@@ -544,8 +570,8 @@ def run(run: Run):
         for k, what, detail in violations(evs):
             run.add_finding(Finding(k, what, {'events': evs, 'detail': detail}))
 
-    n_hist = 150 if run.tier == 'quick' else 900
-    styles = ['plain', 'own', 'faults', 'f10', 'plain', 'session', 'faults', 'plain', 'own']
+    n_hist = 150 if run.tier == 'quick' else 700
+    styles = ['plain', 'own', 'faults', 'f10', 'access', 'cred', 'plain', 'session', 'nosess', 'faults', 'plain', 'own']
     cases = []
     for i in range(n_hist):
         style = styles[i % len(styles)]
